@@ -22,7 +22,7 @@ type Options struct {
 	RenameLocals bool // consistently rename local variables (not receivers)
 	LayoutSeed   uint64
 	// spelling (C13): how a use site writes an annotated type
-	Spelling int // 0 direct, 1 local alias, 2 alias in a third package, 3 renamed import, 4 parenthesised
+	Spelling int // 0 direct, 1 local alias, 2 alias in a third package, 3 renamed import, 4 parenthesised, 5 function-local aliases (one name, a different type per function)
 	// features
 	Ignores   bool // sprinkle @ignore comments
 	TestFiles bool // add _test.go files (in-package and external) and excluded-token files
@@ -54,6 +54,7 @@ type gtype struct {
 	tmeth      bool // has a @testonly method
 	pmeth      bool // has a @packageonly method
 	pmethAllow []string
+	ctorSplit  bool // one @constructor line per name
 }
 
 type gfunc struct {
@@ -61,6 +62,7 @@ type gfunc struct {
 	testonly   bool
 	hasPkgOnly bool
 	pkgonly    []string
+	ret        *gtype // nil: returns int; otherwise an accessor returning *ret
 }
 
 type gpkg struct {
@@ -69,6 +71,10 @@ type gpkg struct {
 	types      []*gtype
 	funcs      []*gfunc // annotated package-level functions (declared here)
 	alias      map[*gpkg]string
+	hidden     bool     // declares an unexported @immutable type that escapes through exported variables / functions
+	relay      []*gtype // a relay package: hands out values of these types of the packages it imports
+	relays     []*gpkg  // relay packages this package imports (their types are not in its `visible` list)
+	thin       bool     // two small files: one names the declaring package, the other only the relay
 }
 
 type block struct {
@@ -82,6 +88,7 @@ type generator struct {
 	r    *rng.R
 	fr   *rng.R // file assignment only (so that extra blocks do not perturb the main stream)
 	lr   *rng.R
+	xr   *rng.R // later features draw from their own stream
 	o    Options
 	tag  int
 	tags map[string]int
@@ -148,6 +155,7 @@ func allowText(list []string) string {
 func Generate(seed uint64, o Options) *Module {
 	g := &generator{r: rng.New(seed), fr: rng.New(seed ^ 0xABCDEF), lr: rng.New(seed ^ (o.LayoutSeed+1)*0x9E3779B97F4A7C15), o: o, tags: map[string]int{}}
 	r := g.r
+	g.xr = rng.New(seed ^ 0x0DDBA11)
 	m := &Module{Files: map[string]string{}, Tags: g.tags}
 	m.Files["go.mod"] = "module exp\n\ngo 1.25\n"
 	base := "exp"
@@ -178,6 +186,14 @@ func Generate(seed uint64, o Options) *Module {
 		decls = append(decls, p)
 		pkgs = append(pkgs, p)
 	}
+	// a relay package: imports d0 and hands out values of its types, so that a user can hold (and write to) a
+	// value of an annotated type without importing the declaring package
+	xr := rng.New(seed ^ 0x51ED51ED)
+	var relayPkg *gpkg
+	if xr.Chance(1, 2) && !o.NoAnnotations {
+		relayPkg = &gpkg{path: base + "/relay", name: "relay", alias: map[*gpkg]string{}, imports: []*gpkg{decls[0]}}
+		pkgs = append(pkgs, relayPkg)
+	}
 	var users []*gpkg
 	for i := 0; i < nUser; i++ {
 		nm := userNames[i%len(userNames)]
@@ -193,8 +209,27 @@ func Generate(seed uint64, o Options) *Module {
 				p.imports = append(p.imports, d)
 			}
 		}
+		if relayPkg != nil && xr.Chance(2, 3) {
+			if xr.Chance(1, 3) {
+				// only the relay: the declaring package is an indirect dependency
+				var keep []*gpkg
+				for _, im := range p.imports {
+					if im != decls[0] {
+						keep = append(keep, im)
+					}
+				}
+				p.imports = keep
+			}
+			p.imports = append(p.imports, relayPkg)
+			p.relays = append(p.relays, relayPkg)
+		}
 		users = append(users, p)
 		pkgs = append(pkgs, p)
+	}
+	if relayPkg != nil && xr.Chance(2, 3) {
+		thin := &gpkg{path: base + "/thin", name: "thin", alias: map[*gpkg]string{}, imports: []*gpkg{decls[0], relayPkg}, thin: true}
+		users = append(users, thin)
+		pkgs = append(pkgs, thin)
 	}
 	for _, p := range pkgs {
 		seenName := map[string]bool{p.name: true}
@@ -219,10 +254,18 @@ func Generate(seed uint64, o Options) *Module {
 				c.pkg = d
 				d.types = append(d.types, &c)
 			}
+			byName := map[string]*gtype{}
+			for _, t := range d.types {
+				byName[t.name] = t
+			}
 			for _, f := range decls[0].funcs {
 				c := *f
+				if c.ret != nil {
+					c.ret = byName[c.ret.name]
+				}
 				d.funcs = append(d.funcs, &c)
 			}
+			d.hidden = decls[0].hidden
 			continue
 		}
 		nT := 1 + r.Intn(3)
@@ -249,6 +292,7 @@ func Generate(seed uint64, o Options) *Module {
 				t.pmeth = true
 				t.pmethAllow = g.allowList(users)
 			}
+			t.ctorSplit = xr.Chance(1, 2)
 			d.types = append(d.types, t)
 		}
 		nF := 1 + r.Intn(2)
@@ -260,6 +304,26 @@ func Generate(seed uint64, o Options) *Module {
 				f.pkgonly = g.allowList(users)
 			}
 			d.funcs = append(d.funcs, f)
+		}
+		// accessors: functions handing out values of the package's types (receivers of chained calls / writes)
+		for _, t := range d.types {
+			if t.kind == 0 && xr.Chance(1, 2) {
+				f := &gfunc{name: "Obtain" + t.name, ret: t}
+				f.testonly = xr.Chance(1, 4) && !o.NoAnnotations
+				if xr.Chance(1, 3) && !o.NoAnnotations {
+					f.hasPkgOnly = true
+					f.pkgonly = g.allowListR(xr, users)
+				}
+				d.funcs = append(d.funcs, f)
+			}
+		}
+		d.hidden = xr.Chance(1, 3) && !o.NoAnnotations
+	}
+	if relayPkg != nil {
+		for _, t := range decls[0].types {
+			if t.kind == 0 {
+				relayPkg.relay = append(relayPkg.relay, t)
+			}
 		}
 	}
 
@@ -288,8 +352,9 @@ func Generate(seed uint64, o Options) *Module {
 	return m
 }
 
-func (g *generator) allowList(users []*gpkg) []string {
-	r := g.r
+func (g *generator) allowList(users []*gpkg) []string { return g.allowListR(g.r, users) }
+
+func (g *generator) allowListR(r *rng.R, users []*gpkg) []string {
 	var l []string
 	for _, u := range users {
 		switch r.Intn(4) {
@@ -322,7 +387,12 @@ func (g *generator) typeDecl(t *gtype) []string {
 		if g.r.Chance(1, 4) {
 			line += " - the only ways in"
 		}
-		doc = append(doc, line)
+		if len(t.ctors) > 1 && t.ctorSplit {
+			// one annotation line per constructor (the lists add up)
+			doc = append(doc, "// @constructor "+t.ctors[0], "// @constructor "+strings.Join(t.ctors[1:], sep))
+		} else {
+			doc = append(doc, line)
+		}
 	}
 	if t.testonly {
 		doc = append(doc, "// @testonly")
@@ -456,6 +526,13 @@ func (g *generator) body(p *gpkg, vars []scopeVar, extra []string, n int) []stri
 		}
 		tag := g.nextTag()
 		s = strings.ReplaceAll(s, "§", g.local(fmt.Sprint(g.tag)))
+		if strings.Contains(s, "\n") {
+			ls := strings.Split(s, "\n")
+			for k := 0; k < len(ls)-1; k++ {
+				ls[k] += " " + g.nextTag()
+			}
+			s = strings.Join(ls, "\n")
+		}
 		if g.o.Ignores && r.Chance(1, 6) {
 			switch r.Intn(3) {
 			case 0: // standalone before the statement
@@ -494,7 +571,66 @@ func indent(ls []string) string {
 	return b.String()
 }
 
+// renderThin: a package of two one-function files. One names the declaring package; the other holds values of its
+// types only through the relay and writes to them (the package imports the declaring package directly, so its
+// annotations apply in both files, wherever the functions are put).
+func (g *generator) renderThin(m *Module, p *gpkg) {
+	d0, rl := p.imports[0], p.imports[1]
+	dir := strings.TrimPrefix(p.path, "exp/")
+	imp := func(im *gpkg) string {
+		if p.alias[im] != im.name {
+			return fmt.Sprintf("import %s %q\n", p.alias[im], im.path)
+		}
+		return fmt.Sprintf("import %q\n", im.path)
+	}
+	if len(rl.relay) == 0 {
+		m.Files[dir+"/thin0.go"] = "package thin\n"
+		return
+	}
+	t := rl.relay[0]
+	a0, ar := p.alias[d0], p.alias[rl]
+	q := g.local("q")
+	b0 := "func Fresh() *" + a0 + "." + t.name + " { return nil } " + g.nextTag()
+	b1 := "func ViaRelay() {\n" + indent([]string{
+		q + " := " + ar + ".Current" + t.name + "() " + g.nextTag(),
+		q + ".X = 5 " + g.nextTag(),
+		ar + ".Default" + t.name + ".Items[0] = 1 " + g.nextTag(),
+		q + ".Cache++ " + g.nextTag(),
+		"_ = " + q + ".X",
+	}) + "}"
+	f0, f1 := 0, 1
+	if g.o.Reassign {
+		f0, f1 = g.lr.Intn(2), g.lr.Intn(2)
+	}
+	blocks := [2][]string{}
+	if g.o.PermuteDecls && g.lr.Bool() {
+		blocks[f1] = append(blocks[f1], b1)
+		blocks[f0] = append(blocks[f0], b0)
+	} else {
+		blocks[f0] = append(blocks[f0], b0)
+		blocks[f1] = append(blocks[f1], b1)
+	}
+	for fi, bs := range blocks {
+		body := strings.Join(bs, "\n\n") + "\n"
+		head := "package thin\n\n"
+		if strings.Contains(body, a0+".") {
+			head += imp(d0)
+		}
+		if strings.Contains(body, ar+".") {
+			head += imp(rl)
+		}
+		if g.o.BlankLines {
+			body = strings.ReplaceAll(body, "\n\t", "\n\n\t// spacer\n\t")
+		}
+		m.Files[fmt.Sprintf("%s/thin%d.go", dir, fi)] = head + "\n" + body
+	}
+}
+
 func (g *generator) renderPkg(m *Module, p *gpkg, decls []*gpkg) {
+	if p.thin {
+		g.renderThin(m, p)
+		return
+	}
 	r := g.r
 	nFiles := 1 + r.Intn(3)
 	var blocks []block
@@ -567,6 +703,19 @@ func (g *generator) renderPkg(m *Module, p *gpkg, decls []*gpkg) {
 			} else {
 				b = []string{"p := new(" + t.name + ") " + g.nextTag(), "return p"}
 			}
+			// a constructor of t is not a constructor of its neighbours: writes to / instances of another type of the
+			// package inside it are judged for that type (before or after the function's own writes)
+			for _, t2 := range p.types {
+				if t2 != t && t2.kind == 0 && t.kind == 0 && g.xr.Chance(1, 2) {
+					o := []string{"o := &" + t2.name + "{} " + g.nextTag(), "o.X = 4 " + g.nextTag(), "o.Items[0] = 1 " + g.nextTag(), "o.Cache = 2 " + g.nextTag()}
+					if g.xr.Bool() {
+						b = append(o, b...)
+					} else {
+						b = append(append(append([]string{}, b[:len(b)-1]...), o...), b[len(b)-1])
+					}
+					break
+				}
+			}
 			add("func " + cn + "() *" + t.name + " {\n" + indent(b) + "}")
 		}
 		// a method writing through the receiver (inside the declaring package, outside constructors)
@@ -597,7 +746,23 @@ func (g *generator) renderPkg(m *Module, p *gpkg, decls []*gpkg) {
 		if f.hasPkgOnly {
 			doc += "// @packageonly" + allowText(f.pkgonly) + "\n"
 		}
-		add(doc + "func " + f.name + "() int { return 1 }")
+		if f.ret != nil {
+			add(doc + "func " + f.name + "() *" + f.ret.name + " { return nil }")
+		} else {
+			add(doc + "func " + f.name + "() int { return 1 }")
+		}
+	}
+	if p.hidden {
+		add("// hidden is unexported, its values are not.\n// @immutable\n// @constructor newHidden\ntype hidden struct {\n\tX     int\n\tItems []int\n}")
+		add("func newHidden() *hidden { return &hidden{X: 1} " + g.nextTag() + " }")
+		add("var Default = newHidden()")
+		add("func Current() *hidden { return Default }")
+		add("func touchHidden() {\n" + indent([]string{"Default.X = 2 " + g.nextTag(), "_ = hidden{} " + g.nextTag()}) + "}")
+	}
+	for _, t := range p.relay {
+		ref := p.alias[t.pkg] + "." + t.name
+		add("func Current" + t.name + "() *" + ref + " { return nil } " + g.nextTag())
+		add("var Default" + t.name + " = Current" + t.name + "() " + g.nextTag())
 	}
 	// extra statements: calls of annotated functions / methods visible from p
 	extraFor := func() []string {
@@ -614,7 +779,59 @@ func (g *generator) renderPkg(m *Module, p *gpkg, decls []*gpkg) {
 				ex = append(ex, "_ = "+p.alias[im]+"."+f.name)
 			}
 		}
+		// values obtained from calls: chained writes and method calls (a reported expression inside another one)
+		chain := func(call string, t *gtype) {
+			ex = append(ex, call+".X = 1", call+".X++", call+".Items[0] = 2", call+".Cache = 3", "_ = "+call+".X",
+				"q§ := "+call+"; q§.X = 4", call+".\n\tX = 5")
+			if t.tmeth {
+				ex = append(ex, call+".ResetForTest()", call+".\n\tResetForTest()")
+			}
+			if t.pmeth {
+				ex = append(ex, call+".Internal()", "_ = "+call+".Internal", call+".\n\tInternal()")
+			}
+			ex = append(ex, call+".Mutate()")
+		}
+		for _, f := range p.funcs {
+			if f.ret != nil {
+				chain(f.name+"()", f.ret)
+			}
+		}
+		for _, im := range p.imports {
+			for _, f := range im.funcs {
+				if f.ret != nil {
+					chain(p.alias[im]+"."+f.name+"()", f.ret)
+				}
+			}
+			for _, t := range im.relay {
+				chain(p.alias[im]+".Current"+t.name+"()", t)
+				chain(p.alias[im]+".Default"+t.name, t)
+			}
+			if im.hidden {
+				a := p.alias[im]
+				ex = append(ex, a+".Default.X = 2", a+".Current().X++", a+".Current().Items[0] = 3", a+".Default.Items = nil", "_ = "+a+".Default.X", "h§ := "+a+".Current(); h§.X -= 1")
+			}
+		}
+		if p.hidden {
+			ex = append(ex, "Default.X = 2", "Current().X++", "_ = new(hidden)")
+		}
 		return ex
+	}
+	// int-valued calls of annotated functions, for nesting inside literals and index expressions
+	intCalls := func() []string {
+		var l []string
+		for _, f := range p.funcs {
+			if f.ret == nil {
+				l = append(l, f.name+"()")
+			}
+		}
+		for _, im := range p.imports {
+			for _, f := range im.funcs {
+				if f.ret == nil {
+					l = append(l, p.alias[im]+"."+f.name+"()")
+				}
+			}
+		}
+		return l
 	}
 	// user functions
 	nFn := 2 + r.Intn(3)
@@ -643,7 +860,36 @@ func (g *generator) renderPkg(m *Module, p *gpkg, decls []*gpkg) {
 			}
 			if sv.t.kind == 0 {
 				ex = append(ex, "var z§ "+g.typeRef(p, sv.t, 9)+"; _ = z§", "var p§ *"+g.typeRef(p, sv.t, 10)+"; _ = p§", "var _ "+g.typeRef(p, sv.t, 11))
+				tr := g.typeRef(p, sv.t, -1)
+				// statements spanning several lines, each line with its own reported expression
+				ex = append(ex, "_ = []*"+tr+"{\n\t{X: 1},\n\t{X: 2}}", "_ = map[string]"+tr+"{\"a\": {X: 1},\n\t\"b\": {}}",
+					"func(a, b "+tr+") {}("+tr+"{X: 1},\n\t"+tr+"{X: 2})", sv.name+".X, "+sv.name+".Cache =\n\t1, 2")
+				for _, c := range intCalls() {
+					ex = append(ex, "_ = &"+tr+"{X: "+c+"}", "_ = []"+tr+"{{X: "+c+"}}", sv.name+".Items["+c+"] = "+c, sv.name+".X = "+c,
+						"(&"+tr+"{X: "+c+"}).Mutate()", "_ = "+tr+"{X: 1,\n\tCache: "+c+"}")
+				}
+				if sv.t.pmeth {
+					ex = append(ex, "(&"+tr+"{}).Internal()", "new("+g.typeRef(p, sv.t, 12)+").Internal()")
+				}
+				if sv.t.tmeth {
+					ex = append(ex, "(&"+tr+"{}).ResetForTest()")
+				}
 			}
+		}
+		if len(vars) > 0 && vars[0].t.kind == 0 {
+			// statements over locally declared variables of the type; under spelling 5 the type is written through a
+			// function-local alias that has the same name in every function, whatever it stands for there
+			t0 := vars[0].t
+			rec := g.typeRef(p, t0, -1)
+			if g.o.Spelling == 5 {
+				direct := t0.name
+				if t0.pkg != p {
+					direct = p.alias[t0.pkg] + "." + t0.name
+				}
+				prologue = append(prologue, "type Rec = "+direct)
+				rec = "Rec"
+			}
+			ex = append(ex, "var l§ "+rec+"; l§.X = 1", "lp§ := new("+rec+"); lp§.X++", "_ = "+rec+"{X: 2}", "var la§ []"+rec+"; la§[0].Items[0] = 3", "lq§ := &"+rec+"{}; lq§.Cache = 1")
 		}
 		name := fmt.Sprintf("Use%d", i)
 		switch {
@@ -692,6 +938,10 @@ func (g *generator) renderPkg(m *Module, p *gpkg, decls []*gpkg) {
 		add("// NOTE: the old line read: // @testonly (removed)\n// was: // @packageonly nobody\nfunc Legacy() int { return 1 }")
 		add("// @immutable\n// @constructor NewNothing\nvar NotAType = 1")
 		add("// @testonly\n\nfunc DetachedDoc() int { return 2 }")
+		add("/*\nBlockDoc is documented in a block comment.\n@immutable\n@constructor NewBlockDoc\n*/\ntype BlockDoc struct{ X int }")
+		add("/*\n@testonly\n@packageonly nobody\n*/\nfunc BlockFn() int { return 3 }")
+		add("/* @immutable */\n/* @testonly */\ntype BlockDoc2 struct{ X int }")
+		add("func UseBlockDoc(bd *BlockDoc, b2 *BlockDoc2) {\n" + indent([]string{"bd.X = 1 " + g.nextTag(), "_ = BlockDoc{} " + g.nextTag(), "_ = BlockFn() " + g.nextTag(), "b2.X++ " + g.nextTag(), "_ = BlockDoc2{} " + g.nextTag()}) + "}")
 		add("func UseGauge(gg *Gauge) {\n" + indent([]string{"gg.X = 1 " + g.nextTag(), "_ = Gauge{} " + g.nextTag(), "_ = Legacy() " + g.nextTag(), "_ = DetachedDoc() " + g.nextTag(),
 			"// @immutable", "type localT struct{ Y int }", "var lt localT " + g.nextTag(), "lt.Y = 2 " + g.nextTag(), "_ = lt"}) + "}")
 	}
